@@ -26,6 +26,10 @@ type expect struct {
 	// RSV1 on a control or continuation frame while permessage-deflate is negotiated: RFC 7692 says fail,
 	// RFC 6455 alone leaves it to the extension; both outcomes are accepted and only counted
 	Lenient bool
+	// the non-empty data frames in wire order (what an OnDataFrame handler is given: type of the MESSAGE, FIN, raw payload)
+	// and the index of each in the sequence
+	DFrames  []dframe
+	DFrameAt []int
 	// a frame sequence whose outcome depends on the message length limit is not judged here
 }
 
@@ -87,7 +91,11 @@ func rfcInflate(payload []byte) ([]byte, error) {
 	return io.ReadAll(r)
 }
 
-func rfcRef(frames []rawFrame, encomp bool) expect {
+func rfcRef(frames []rawFrame, encomp bool) expect { return rfcRefOpt(frames, encomp, true) }
+
+// msgChecks=false: what is left of the RFC for an endpoint that never assembles messages (no OnMessage handler): the
+// checks that need the whole message (UTF-8 of a text message, inflating a compressed one) are not made
+func rfcRefOpt(frames []rawFrame, encomp bool, msgChecks bool) expect {
 	e := expect{End: "open", EndAt: -1}
 	inMsg := false
 	var cur []byte
@@ -164,9 +172,13 @@ func rfcRef(frames []rawFrame, encomp bool) expect {
 				inMsg, curOp, curComp, cur = true, f.Op, f.R1, nil
 			}
 			cur = append(cur, f.Payload...)
+			if len(f.Payload) > 0 {
+				e.DFrames = append(e.DFrames, dframe{curOp, f.Fin, f.Payload})
+				e.DFrameAt = append(e.DFrameAt, i)
+			}
 			if f.Fin {
 				body := cur
-				if curComp {
+				if curComp && msgChecks {
 					out, err := rfcInflate(cur)
 					if err != nil {
 						e.Poison = &msg{curOp, cur}
@@ -174,7 +186,7 @@ func rfcRef(frames []rawFrame, encomp bool) expect {
 					}
 					body = out
 				}
-				if curOp == 1 && !rfcUTF8(body) {
+				if msgChecks && curOp == 1 && !rfcUTF8(body) {
 					e.Poison = &msg{curOp, body}
 					return fail(i, "text message is not UTF-8")
 				}
